@@ -374,26 +374,48 @@ def run_history(ctx: Ctx, n_hist: int, length: int):
                     logs += la
                 a = U.to_dtype_exact([a], dtype)[1][0].tolist()
                 seq.append((kind, a))
-        # implementation
+        # implementation: ONE persistent object is updated in place (copy_/add_) through the whole history and its
+        # accessors are re-read along the way: every read must describe the element's CURRENT state, i.e. equal
+        # the same call on a fresh clone bit for bit (stale caches / memoised views are history bugs)
+        p_probe = torch.tensor([[0.4, -1.1, 0.8]], dtype=D)
+        stale = None
+
+        def reads(obj):
+            out = {"matrix": obj.matrix(), "rotation": obj.rotation().tensor(), "Act": obj.Act(p_probe),
+                   "Inv": obj.Inv().tensor(), "tensor": obj.tensor()}
+            if U.TSL[name] is not None:
+                out["translation"] = obj.translation()
+            if U.SIDX[name] is not None:
+                out["scale"] = obj.scale()
+            return out
         try:
             Xi = X.clone()
-            for kind, arg in seq:
+            for step, (kind, arg) in enumerate(seq):
                 if kind == "mulL":
-                    Xi = U.lt(name, [arg], D) @ Xi
+                    Xi.copy_(U.lt(name, [arg], D) @ Xi)
                 elif kind == "mulR":
-                    Xi = Xi @ U.lt(name, [arg], D)
+                    Xi.copy_(Xi @ U.lt(name, [arg], D))
                 elif kind == "inv":
-                    Xi = Xi.Inv()
+                    Xi.copy_(Xi.Inv())
                 elif kind == "retr":
-                    Xi = Xi.Retr(P.LieTensor(torch.tensor([arg], dtype=D), ltype=getattr(P, U.ALG[name] + "_type")))
+                    Xi.copy_(Xi.Retr(P.LieTensor(torch.tensor([arg], dtype=D), ltype=getattr(P, U.ALG[name] + "_type"))))
                 elif kind == "add_":
-                    Xi = Xi.clone()
                     Xi.add_(torch.tensor([arg + [7.0]], dtype=D))  # extra component must be ignored
                 else:
-                    Xi = Xi + torch.tensor([arg], dtype=D)
+                    Xi.copy_(Xi + torch.tensor([arg], dtype=D))
+                if stale is None and (step < 8 or step % 37 == 0 or step == length - 1):
+                    a, b = reads(Xi), reads(Xi.clone())
+                    for kk in a:
+                        if not torch.equal(torch.nan_to_num(a[kk]), torch.nan_to_num(b[kk])):
+                            stale = (step, kind, kk, float((a[kk].double() - b[kk].double()).abs().max()))
+                            break
         except Exception as e:
             ctx.fail(case, f"raises: history step raised {type(e).__name__}: {str(e)[:150]}")
             continue
+        if stale is not None:
+            ctx.fail(case | {"seq_kinds": [k for k, _ in seq][:stale[0] + 1]},
+                     f"stale: after in-place update #{stale[0]} ({stale[1]}) {stale[2]}() of the updated object differs from the "
+                     f"same call on a fresh clone by {stale[3]:.3e} ({name}, {dtype})")
         # model: the state is threaded through the history with one persistent driver process
         xm, tmax = run_model_history(ctx, name, eps, x_model, seq)
         got = Xi.tensor().double()[0].tolist()
